@@ -16,6 +16,10 @@ Tie: the same history, in logical ticks and content ids, is replayed on the Lean
 spy on `api.load_model`) and the model's verdict "result differs from the current compile" are
 compared with the real code.
 
+Option-sweep stream: one option key flipped between two calls on one folder (and back), for a
+model on which almost every key changes the compile; `expand_mx` under codegen (caching forces
+it, code generation does not).
+
 Separate streams for the two open findings (see `known/C20.json`): switching
 `library_folders` (C20-F1) and a code-generated model kept alive across a recompile (C20-F2).
 """
@@ -120,11 +124,54 @@ def gen_history(rng, length, stream="main"):
 
 def gen_f1_history(rng):
     """C20-F1: the library folder list changes to folders whose files are older than the cache."""
+    la = _lib_text(rng)
+    lb = _lib_text(rng)
+    while lb == la:
+        lb = _lib_text(rng)
     ops = [["write", 0, "M.mo", _main_text(rng, True), 1],
-           ["write", 1, "Lib0.mo", _lib_text(rng), 1], ["write", 2, "Lib0.mo", _lib_text(rng), 1],
+           ["write", 1, "Lib0.mo", la, 1], ["write", 2, "Lib0.mo", lb, 1],
            ["options", G.gen_options(rng, heavy=0.2)], ["libs", [1]], ["transfer", "cache"], ["transfer", "cache"],
            ["libs", [2]], ["transfer", "cache"], ["libs", [1]], ["transfer", "cache"]]
     return {"stream": "F1-library-folders", "libs": [1], "step_ns": 10**6, "ops": ops}
+
+
+SWEEP_TEXT = """model M
+  parameter Real p0 = 2;
+  parameter Real p1;
+  parameter Real pd = 2*p0;
+  constant Real c0 = 3;
+  constant Real c1 = 6;
+  Real x(start = p0, max = pd);
+  Real y(nominal = p0 + p1);
+  Real w[2](each min = p0);
+  Real a;
+  Real b;
+  Real k;
+  Real z;
+  input Real u(fixed = true);
+  output Real o;
+equation
+  der(x) = -p0*x + c1 + u;
+  w[1] = 4.0;
+  w[2] = x*p1;
+  a = b;
+  b = -y;
+  k = 2.0;
+  2*(z - x) = 0;
+  y = x + k + c0;
+  o = z + w[2];
+end M;
+"""
+SWEEP_SMALL = "model M\n  Real x;\n  Real w[2];\nequation\n  der(x) = -x;\n  w[1] = 4.0;\n  w[2] = x;\nend M;\n"
+SWEEP_BASES = [{}, {"expand_vectors": True, "eliminate_constant_assignments": True}]
+
+
+def gen_sweep_history(key, base, mode, text=SWEEP_TEXT):
+    """One option key changed between two calls on one folder (and back): the cache written for the other value
+    must not be served unless the compile is the same.  `expand_mx` only matters under codegen (caching forces it)."""
+    ops = [["write", 0, "M.mo", text, 1], ["options", dict(base)], ["transfer", mode],
+           ["options", G.flip(base, key)], ["transfer", mode], ["options", dict(base)], ["transfer", mode]]
+    return {"stream": "option-sweep", "libs": [], "step_ns": 10**6, "ops": ops}
 
 
 def gen_f2_history(rng):
@@ -208,7 +255,7 @@ def run_history(ctx, hist, drv, hid):
                 if df:
                     ctx.violation("transfer_model returned a model that differs from a fresh compile of the current sources "
                                   "(decision: %s): %s" % (kind, df[0]), case, expected="fresh compile", observed=df, kind="history")
-                    if hist["stream"] == "main":
+                    if hist["stream"] in ("main", "option-sweep", "thorough-codegen"):
                         return
             else:
                 raise HarnessError("unknown op " + str(k))
@@ -262,6 +309,19 @@ def run(ctx):
         hid += 1
         ctx.count("stream:F2")
         run_history(ctx, gen_f2_history(ctx.rng), drv, hid)
+    # one option key changed between calls: a sample of keys (all of them in the thorough tier), and always
+    # `expand_mx` under codegen, where caching does not force it
+    sweep = [(k, SWEEP_BASES[j % 2], "cache", SWEEP_TEXT) for j, k in enumerate(G.FLIP_KEYS)]
+    if quick:
+        sweep = ctx.rng.sample(sweep, 4)
+    sweep.insert(0, ("expand_mx", SWEEP_BASES[1], "codegen", SWEEP_SMALL))
+    if not quick:
+        sweep += [(k, SWEEP_BASES[1], "codegen", SWEEP_SMALL) for k in ("expand_vectors", "eliminate_constant_assignments", "detect_aliases")]
+    for key, base, mode, text in sweep:
+        hid += 1
+        ctx.count("stream:option-sweep")
+        ctx.count("sweep:%s:%s" % (mode, key))
+        run_history(ctx, gen_sweep_history(key, base, mode, text), drv, hid)
     n, lo, hi = (60, 8, 14) if quick else (500, 20, 30)
     slack = 14 if quick else 30
     for j in range(n):
